@@ -31,6 +31,8 @@ def load():
                    MciIpmDataError=mciipm.MciIpmDataError,
                    Iso8583DataError=iso8583.Iso8583DataError,
                    CardutilError=cardutil.CardutilError)
+    from . import msgcodec
+    msgcodec.packaged_bit_config()
     return _loaded
 
 
